@@ -104,6 +104,26 @@ def run (c : RCfg) (cmd : String) (rs : List Rec) : String :=
   | "specstrict" => match toForest rs [] [] with | some cs => showRecs (spec c true cs) | none => "not-a-forest"
   | _ => "bad-op"
 
+def showTagged (rs : List (Nat × Rec)) : String :=
+  if rs.isEmpty then "-" else " ".intercalate (rs.map fun p => s!"{p.1}/{showRec p.2}")
+
+def splitBar (ws : List String) : List (List String) :=
+  ws.foldr (fun w acc => if w = "|" then [] :: acc else
+    match acc with
+    | [] => [[w]]
+    | a :: r => (w :: a) :: r) [[]]
+
+/-- RUNM <cmd> <recs of task 0> | <recs of task 1> | …  -> "<task>/<rec> …" -/
+def runMulti (c : RCfg) (cmd : String) (files : List (List Rec)) : String :=
+  match cmd with
+  | "replay" => showTagged (cmdOutM c .replay files)
+  | "report" => showTagged (cmdOutM c .report files)
+  | "graph" => showTagged (cmdOutM c .graph files)
+  | "dump" => showTagged (cmdOutM c .dump files)
+  | "script" => showTagged (cmdOutM c .script files)
+  | "dumpraw" => showTagged (dumpRawM c c.enabled0 0 files)
+  | _ => "bad-op"
+
 def step (d : DS) (ws : List String) : DS × String :=
   match ws with
   | ["RESET"] => ({}, "ok")
@@ -114,6 +134,10 @@ def step (d : DS) (ws : List String) : DS × String :=
       ({ d with trigs := (f, items.foldl applyTrig {}) :: d.trigs,
                 hides := if items.contains "hide" then f :: d.hides else d.hides,
                 plts := if items.contains "plt" then f :: d.plts else d.plts }, "ok")
+    | none => (d, "bad-op")
+  | "RUNM" :: cmd :: recs =>
+    match (splitBar recs).mapM (fun f => f.mapM parseRec) with
+    | some files => (d, runMulti d.full cmd files)
     | none => (d, "bad-op")
   | "RUN" :: cmd :: recs =>
     match recs.mapM parseRec with
